@@ -12,7 +12,7 @@ Decoders: arrays/dicts/strings declaring 2^26-1 .. 2^32-1 bytes with few bytes p
 the typed decoders, the body parser and the header decoder: limit exceeded => error, on both builds, without crash.
 Send path: an array of 2^26 bytes is accepted and announced as 2^26, one of 2^26+1 (+4, +8, +9 for wider elements) is
 refused, through the slice fast path, the per-element path, the typed HashMap path and the Param array and Param dict
-paths; Param trees nested 64 / 65 levels; messages of 2^27 bytes and more (thorough: the exact boundary); TYPED values
+paths; Param trees nested 64 / 65 levels; messages of 2^27 - 1, 2^27, 2^27 + 1, 2^27 + 8 bytes in total (header + padding + body), Param trees pushed through push_old_param and through the typed push of params::Variant; TYPED values
 of self-referential types nested up to and beyond 64 levels are pushed, marshalled and sent over a real connection: the
 typed marshaller counts no nesting (known finding D21s), everything else that exceeds a limit on send is a violation.
 The expected verdicts are computed here from the protocol's numbers, independently of the models; the extracted
@@ -133,6 +133,9 @@ def gen_send(g):
             sig = "v"
         add("SD v %d" % d, d <= 64, "Param tree of %d nested variants" % d, model="MP le 0 " + " ".join(toks) if d <= 100 else None)
         add("SD mix %d" % d, d <= 64, "Param tree of %d nested variant/struct/array levels" % d)
+        # the typed entry of the Param marshaller: push_param(&params::Variant) = marshal_variant_param
+        add("SD tv %d" % d, d <= 64, "params::Variant pushed through the typed API, %d variant levels in all" % d,
+            model="MP le 0 " + " ".join(toks) if d <= 100 else None)
     # typed values of self-referential types (a derived enum, a dbus_variant_sig! enum, a Vec of the former)
     for kind in ("drec", "msrec", "vec"):
         for d in (1, 33, 61, 63, 64, 65, 66, 67, 101, 401):
@@ -163,6 +166,8 @@ def judge_send(c, res, build):
         total = res.num("total")
         if res.f.get("pushed") != "true":
             return "send path [%s build]: could not build the test message (%s)" % (build, res.raw[:120])
+        if getattr(c, "want_total", total) != total:
+            return "send path [%s build]: the test message has %d bytes, %d were intended (%s)" % (build, total, c.want_total, c.note)
         if (res.status == "ok") != (total <= MAXM):
             return "send path [%s build]: marshal returned %s for a message of %d bytes (%s)" % (build, res.status, total, c.note)
         return None
@@ -178,20 +183,20 @@ def judge_send(c, res, build):
 
 
 def gen_send_boundary(g, exe):
-    """thorough: messages of exactly 2^27 bytes and one more (header length learned from a probe)"""
-    probe = c04.run_impl(exe, ["SM le 64 0 0"])[0]
+    """messages of exactly 2^27 - 1, 2^27, 2^27 + 1, 2^27 + 8 bytes in total, i.e. header + padding + body (the header length is learned
+    from a probe): a limit applied to the body alone would accept the last two"""
+    # the header depends on the body signature ("ayay"): learn its padded length from a small message of the same shape
+    probe = c04.run_impl(exe, ["SM le 8 8 0"])[0]
     hdr = probe.num("hdr")
     cases = []
-    # body = 4 + l1 (+pad to 4) + 4 + l2 + extra ; choose l1 = 2^26, l2 so that hdr + body = 2^27 - 1, 2^27, 2^27 + 1
+    # body = 4 + l1 + 4 + l2 with l1 = 2^26 (a multiple of 4, so the second array needs no padding)
     for delta in (-1, 0, 1, 8):
-        want = MAXM + delta - hdr
         l1 = MAXA
-        rest = want - (4 + l1) - 4
-        extra = rest % 4
-        l2 = rest - extra
+        l2 = MAXM + delta - hdr - 8 - l1
         if 0 < l2 <= MAXA:
-            c = c04.Case("send", "SM le %d %d %d" % (l1, l2, extra), 0, note="message of 2^27%+d bytes" % delta)
+            c = c04.Case("send", "SM le %d %d 0" % (l1, l2), 0, note="message of 2^27%+d bytes in total (header %d + body)" % (delta, hdr))
             c.want_ok = delta <= 0
+            c.want_total = MAXM + delta
             cases.append(c)
     return cases
 
@@ -204,7 +209,7 @@ def run(ctx):
                 "the verdict the limits demand; send cases = arrays at and just above 2^26 bytes through the slice, per-element, typed "
                 "HashMap<u32,String>, Param array and Param dict paths (a{uu} with 2^23 entries: thorough only), Param trees 1..1000 deep, "
                 "typed self-referential values (derived enum, dbus_variant_sig! enum, Vec of them) nested 3..401 levels pushed, marshalled and "
-                "sent over a real connection, messages around 2^27 bytes; every case on the release and the debug build; receive verdicts: "
+                "sent over a real connection, messages of exactly 2^27 - 1 .. 2^27 + 8 bytes in total, Param variants through the typed push of params::Variant; every case on the release and the debug build; receive verdicts: "
                 "refused = the call ends with the limit error (never TimedOut) and < 64 KiB allocated; accepted = at most the announced size "
                 "(<= 2^27) allocated; "
                 "non-trivial = the case sits at or beyond a limit; distinct = distinct case lines")
@@ -215,6 +220,7 @@ def run(ctx):
         ctx.try_proof()
     builds, param_size, info = c04.build_all()
     drv = c04.build_model()
+    c04.clean_socks()
     g = c04.Gen(ctx, drv, thorough, name="c18")
     # ---- decoders: limit exceeded => error (the C04 generators carry the verdicts)
     dec = c04.gen_nesting(g) + c04.gen_length(g) + [c for c in c04.gen_header(g) if "bomb" in c.kind]
@@ -243,8 +249,7 @@ def run(ctx):
         else:
             k.expect = exp
             dec.insert(0, k)
-    if thorough:
-        send += gen_send_boundary(g, builds[0][1])
+    send += gen_send_boundary(g, builds[0][1])
     model_lines = [c.model for c in dec + send if c.model]
     ok, mout, err = vlib.par_run_lines(drv, [], model_lines)
     if not ok:
@@ -304,6 +309,7 @@ def run(ctx):
             ctx.extra["recv_peak_rejected_max"] = max([p for (c, (_, p)) in zip(recv, peaks) if c.reject] or [0])
             ctx.extra["recv_peak_within_max"] = max([p for (c, (_, p)) in zip(recv, peaks) if not c.reject] or [0])
     c04.report(ctx, found)
+    c04.clean_socks()
     ctx.extra["builds"] = [b for b, _ in builds]
     ctx.extra["harness_info"] = info
 
